@@ -32,8 +32,14 @@ pub enum Strategy {
 
 #[derive(Serialize, Deserialize, Clone, Debug, PartialEq, Eq)]
 pub enum Req {
-    /// adds field `f<index>` (index = number of `Add` requests before this one) of catalogue type `ty`
-    Add { ty: String, uninit: bool },
+    /// adds field number `index` (= number of `Add` requests before this one) of catalogue type `ty`, named
+    /// `f<index>` unless `name` reuses the name of a field removed earlier
+    Add {
+        ty: String,
+        uninit: bool,
+        #[serde(default, skip_serializing_if = "Option::is_none")]
+        name: Option<String>,
+    },
     /// removes field `f<field>`
     Remove { field: usize },
     Close { strategy: Strategy },
@@ -143,6 +149,7 @@ catalogue! {
     ("tokah", TokAH, "simrt::tok::TokAH", false),
     ("tokaz", TokAZ, "simrt::tok::TokAZ", false),
     ("string", String, "String", false),
+    ("boxstr", Box<str>, "Box<str>", false),
     ("vecu32", Vec<u32>, "Vec<u32>", false),
     ("boxtok", Box<TokA8>, "Box<simrt::tok::TokA8>", false),
     ("opttok", Option<TokA8>, "Option<simrt::tok::TokA8>", false),
@@ -166,8 +173,8 @@ pub fn build(plan: &Plan) -> Result<Built, String> {
     let mut keys = Vec::new();
     for req in &plan.reqs {
         match req {
-            Req::Add { ty, uninit } => {
-                let name = format!("f{}", ids.len());
+            Req::Add { ty, uninit, name } => {
+                let name = name.clone().unwrap_or_else(|| format!("f{}", ids.len()));
                 let id = add_typed(&mut b, ty, &name, *uninit)?;
                 if format!("{}", id) != format!("{}", ids.len()) {
                     return Err(format!("datum id {} is not the request index {}", id, ids.len()));
@@ -226,7 +233,7 @@ impl Default for SwarmOpts {
 const PLAIN: &[&str] = &["u8", "u16", "u32", "u64", "u128", "usize", "u8x3", "u16x3", "u32x3", "u64x3", "al16", "p12", "u64x16"];
 const ZSTS: &[&str] = &["unit", "u64x0", "tokaz"];
 const TOKENS: &[&str] = &["toka8", "tokb8", "toka3", "toka16", "toka64", "tokah"];
-const HEAP: &[&str] = &["string", "vecu32", "boxtok", "opttok"];
+const HEAP: &[&str] = &["string", "vecu32", "boxtok", "opttok", "boxstr"];
 
 /// One definition history drawn from the PRNG (swarm style: the type mix, the strategy mix, the
 /// sizes and the fragment selection are themselves drawn per definition).
@@ -242,20 +249,24 @@ fn gen_gap_reuse_plan(rng: &mut Rng, name: &str, opts: &SwarmOpts) -> Plan {
     let mut live: Vec<(usize, &'static str)> = Vec::new();
     let mut n_fields = 0usize;
     let sized: Vec<&'static str> = PLAIN.iter().chain(TOKENS.iter()).chain(HEAP.iter()).copied().collect();
-    let mut push = |reqs: &mut Vec<Req>, live: &mut Vec<(usize, &'static str)>, ty: &'static str, rng: &mut Rng| {
+    let mut free_names: Vec<String> = Vec::new();
+    let mut names: Vec<String> = Vec::new();
+    let mut push = |reqs: &mut Vec<Req>, live: &mut Vec<(usize, &'static str)>, ty: &'static str, rng: &mut Rng, free_names: &mut Vec<String>, names: &mut Vec<String>| {
         let e = type_entry(ty);
-        reqs.push(Req::Add { ty: ty.to_string(), uninit: e.copy && rng.chance(1, 3) });
+        let name = if !free_names.is_empty() && rng.chance(1, 2) { Some(free_names.remove(rng.below(free_names.len()))) } else { None };
+        names.push(name.clone().unwrap_or_else(|| format!("f{}", n_fields)));
+        reqs.push(Req::Add { ty: ty.to_string(), uninit: e.copy && rng.chance(1, 3), name });
         live.push((n_fields, ty));
         n_fields += 1;
     };
     if opts.zst && rng.chance(2, 3) {
-        push(&mut reqs, &mut live, *rng.pick(ZSTS), rng);
+        push(&mut reqs, &mut live, *rng.pick(ZSTS), rng, &mut free_names, &mut names);
     }
     for _ in 0..rng.range(3, 6) {
         if opts.zst && rng.chance(1, 6) {
-            push(&mut reqs, &mut live, *rng.pick(ZSTS), rng);
+            push(&mut reqs, &mut live, *rng.pick(ZSTS), rng, &mut free_names, &mut names);
         }
-        push(&mut reqs, &mut live, *rng.pick(&sized), rng);
+        push(&mut reqs, &mut live, *rng.pick(&sized), rng, &mut free_names, &mut names);
     }
     let close = |rng: &mut Rng| match strat_mode {
         0 | 1 => Strategy::Simple,
@@ -275,6 +286,7 @@ fn gen_gap_reuse_plan(rng: &mut Rng, name: &str, opts: &SwarmOpts) -> Plan {
             let i = candidates[rng.below(candidates.len())];
             let (f, ty) = live.remove(i);
             removed_sizes.push(type_entry(ty).size);
+            free_names.push(names[f].clone());
             reqs.push(Req::Remove { field: f });
         }
         // refill with the same sizes (or smaller), then maybe one more field
@@ -283,11 +295,11 @@ fn gen_gap_reuse_plan(rng: &mut Rng, name: &str, opts: &SwarmOpts) -> Plan {
             let same: Vec<&'static str> = sized.iter().copied().filter(|t| type_entry(t).size == size).collect();
             let pool = if !same.is_empty() && rng.chance(2, 3) { same } else { fits };
             if !pool.is_empty() && live.len() < opts.max_live_fields {
-                push(&mut reqs, &mut live, *rng.pick(&pool), rng);
+                push(&mut reqs, &mut live, *rng.pick(&pool), rng, &mut free_names, &mut names);
             }
         }
         if live.len() < opts.max_live_fields && rng.chance(1, 2) {
-            push(&mut reqs, &mut live, *rng.pick(&sized), rng);
+            push(&mut reqs, &mut live, *rng.pick(&sized), rng, &mut free_names, &mut names);
         }
         reqs.push(Req::Close { strategy: close(rng) });
     }
@@ -321,6 +333,9 @@ pub fn gen_plan(rng: &mut Rng, name: &str, opts: &SwarmOpts) -> Plan {
     let mut reqs = Vec::new();
     let mut live: Vec<usize> = Vec::new();
     let mut n_fields = 0usize;
+    // names of removed fields that may be given to new fields, and the name of every field
+    let mut free_names: Vec<String> = Vec::new();
+    let mut names: Vec<String> = Vec::new();
     for v in 0..n_variants {
         if v > 0 && !live.is_empty() {
             let n_remove = match rng.below(5) {
@@ -331,6 +346,7 @@ pub fn gen_plan(rng: &mut Rng, name: &str, opts: &SwarmOpts) -> Plan {
             for _ in 0..n_remove {
                 let i = rng.below(live.len());
                 let f = live.remove(i);
+                free_names.push(names[f].clone());
                 reqs.push(Req::Remove { field: f });
             }
         }
@@ -346,7 +362,10 @@ pub fn gen_plan(rng: &mut Rng, name: &str, opts: &SwarmOpts) -> Plan {
             let ty = *rng.pick(group);
             let entry = type_entry(ty);
             let uninit = entry.copy && rng.below(100) < uninit_pct;
-            reqs.push(Req::Add { ty: ty.to_string(), uninit });
+            // sometimes under the name of a field removed earlier (in this transition or before)
+            let name = if !free_names.is_empty() && rng.chance(1, 3) { Some(free_names.remove(rng.below(free_names.len()))) } else { None };
+            names.push(name.clone().unwrap_or_else(|| format!("f{}", n_fields)));
+            reqs.push(Req::Add { ty: ty.to_string(), uninit, name });
             live.push(n_fields);
             n_fields += 1;
         }
@@ -361,10 +380,14 @@ pub fn gen_plan(rng: &mut Rng, name: &str, opts: &SwarmOpts) -> Plan {
 }
 
 fn add(ty: &str) -> Req {
-    Req::Add { ty: ty.to_string(), uninit: false }
+    Req::Add { ty: ty.to_string(), uninit: false, name: None }
 }
 fn addu(ty: &str) -> Req {
-    Req::Add { ty: ty.to_string(), uninit: true }
+    Req::Add { ty: ty.to_string(), uninit: true, name: None }
+}
+/// adds a field under the name of a field removed before
+fn addn(ty: &str, name: &str) -> Req {
+    Req::Add { ty: ty.to_string(), uninit: false, name: Some(name.to_string()) }
 }
 fn rm(field: usize) -> Req {
     Req::Remove { field }
@@ -403,6 +426,11 @@ pub fn corpus() -> Vec<Plan> {
         // wide records (several hundred bytes): size thresholds in generated code
         p("wide", true, true, vec![add("u64x16"), add("toka64"), add("string"), add("toka8"), addu("u64x16"), add("tokah"), close(Simple), rm(1), add("toka16"), add("vecu32"), add("toka64"), close(Simple), rm(0), rm(2), add("boxtok"), addu("u64x3"), close(Simple)]),
         p("wide_tokens", true, true, vec![add("toka64"), add("toka64"), add("toka64"), add("tokb8"), close(Append), add("toka64"), add("opttok"), rm(1), close(Simple), rm(0), add("u64x16"), add("toka3"), close(Basic)]),
+        // a field replaced by another one of the same name (same and different type, same and other bytes)
+        p("same_name", true, true, vec![add("toka8"), add("string"), add("u32"), add("tokb8"), close(Simple), rm(0), addn("toka8", "f0"), close(Simple), rm(1), rm(3), addn("vecu32", "f1"), addn("tokb8", "f3"), close(Simple), rm(2), addn("u64", "f2"), close(Simple)]),
+        // may-be-uninitialised plain data interleaved with owned data of assorted sizes and alignments
+        p("interleaved", true, true, vec![addu("u64"), add("toka8"), addu("u128"), add("toka3"), addu("u32"), add("tokah"), close(Append), addu("al16"), add("toka16"), addu("u16"), add("string"), close(Append), rm(1), addu("u8"), add("boxstr"), addu("u64x3"), close(Simple)]),
+        p("interleaved_small", true, true, vec![addu("u16"), add("toka3"), addu("u32"), add("toka3"), addu("u64"), close(Append), add("tokb8"), addu("u128"), rm(1), close(Append), addu("p12"), add("opttok"), close(Simple)]),
         // zero-size only
         p("zst_only", true, true, vec![add("unit"), add("tokaz"), close(Simple), add("u64x0"), rm(0), close(Simple)]),
     ]
